@@ -177,9 +177,6 @@ func runProfile(p *Prof, vias int, perms bool) *wkpool.CaseResult {
 		}
 	}
 	c.res.Outcomes = append(c.res.Outcomes, fmt.Sprintf("profile:types=%d:samples=%d:nodes=%d:roots=%d:functions=%d", p.NTypes, len(p.Samples), len(st.Tree), roots, len(st.Funcs)))
-	if len(c.res.Viols) == 0 && len(p.Samples) == 3 {
-		c.res.Sample = map[string]any{"profile": p, "stored_tree_rows": len(st.Tree)}
-	}
 	return c.res
 }
 
@@ -354,9 +351,6 @@ func runMerge(profs []*Prof, cache bool) *wkpool.CaseResult {
 		}
 	}
 	c.res.Outcomes = append(c.res.Outcomes, fmt.Sprintf("merge:profiles=%d:merged_nodes=%d", len(profs), nodes))
-	if len(profs) == 3 && len(c.res.Viols) == 0 {
-		c.res.Sample = map[string]any{"merge_of": profs, "merged_nodes": nodes}
-	}
 	return c.res
 }
 
@@ -453,12 +447,28 @@ func main() {
 			r.Outcome(o)
 			fmt.Println("outcome:", o)
 		}
+		for k, v := range res.Counters {
+			fmt.Printf("observation: %s=%d\n", k, v)
+		}
 		for _, v := range res.Viols {
 			r.Violate(v.Class, v.What, doc.Replay)
 		}
 		r.Finish()
 	}
 
+	// samples: fixed indices, rendered by the parent (deterministic)
+	off := 0
+	for _, f := range sp.fams {
+		r.Sample(map[string]any{"family": f.name, "index": off + f.size/3, "profile": f.at(f.size / 3)})
+		off += f.size
+	}
+	for _, k := range []int{len(sp.pool) + 7, len(sp.pool)*len(sp.pool) + len(sp.pool) + 1234} {
+		var ps []*Prof
+		for _, x := range sp.seqAt(k) {
+			ps = append(ps, sp.pool[x])
+		}
+		r.Sample(map[string]any{"merge_sequence": sp.seqAt(k), "profiles": ps})
+	}
 	counters := map[string]int64{}
 	sink := wkpool.Sink{
 		Stats: func(s *wkpool.Stats) {
@@ -474,9 +484,6 @@ func main() {
 			}
 			for k, v := range s.Counters {
 				counters[k] += v
-			}
-			for _, x := range s.Samples {
-				r.Sample(x)
 			}
 		},
 		Violation: func(v *wkpool.Viol) {
